@@ -88,6 +88,9 @@ def attempt(spec, args):
             names = list(extra)
         else:
             fn = load(spec['qual'])
+            if isinstance(args.get('self'), dict):
+                out['detail'] = 'no native builder for the receiver state of this contract: the solver model is reported, not replayed'
+                return out
             if 'self' in spec['argorder'] and 'self' not in args:
                 # method whose receiver is irrelevant to the contract: an uninitialised instance
                 cls = load(spec['qual'].rsplit('.', 1)[0])
